@@ -163,10 +163,10 @@ def run(ctx):
         # derived properties
         xv, yv = g.xvalues, g.yvalues
         ctx.count(("xvalues", nrows == 1, ncols == 1))
-        okx = all(abs(Fr(float(xv[c])) - (Fr(xll) + Fr(csz) * (c + Fr(1, 2)))) <= 1e-12 * (abs(xll) + csz * ncols)
-                  for c in range(ncols)) and len(xv) == ncols
-        oky = all(abs(Fr(float(yv[r])) - (Fr(yll) + Fr(csz) * (nrows - 1 - r + Fr(1, 2)))) <= 1e-12 * (abs(yll) + csz * nrows)
-                  for r in range(nrows)) and len(yv) == nrows
+        okx = len(xv) == ncols and all(abs(Fr(float(xv[c])) - (Fr(xll) + Fr(csz) * (c + Fr(1, 2)))) <= 1e-12 * (abs(xll) + csz * ncols)
+                  for c in range(ncols))
+        oky = len(yv) == nrows and all(abs(Fr(float(yv[r])) - (Fr(yll) + Fr(csz) * (nrows - 1 - r + Fr(1, 2)))) <= 1e-12 * (abs(yll) + csz * nrows)
+                  for r in range(nrows))
         if not (okx and oky):
             i = add(f"GRowcol 1%Z 1%Z 0%Z 0%Z 0%Z", dict(geom, call="xvalues/yvalues"), ("xv",))
             fail(i, "C07/xvalues-yvalues", "xvalues/yvalues are not the column/row centres")
